@@ -64,6 +64,10 @@ C['C02'] = dict(level=MC, engine='E2', design='§2 C02',
    technique='symbolic execution (symx DFS driver, z3) of the unmodified EquationSolver._SolveStep/SolveStep: exact-real residual post-conditions on every path; IEEE binary64 (QF_FP) blind-fork paths for the non-finite clause',
    text='Real mode: nine block shapes (affine 1-3 variables, oscillating, lagged, decorative tree, alias chain, user function) x tolerances x iteration caps x reduction on/off are executed through the real solver with start values and exogenous inputs symbolic in [-100,100]; every feasible path is explored and z3 shows on each normally-returning path that simultaneously determined equations hold within (1+gain)*n*tol/(1-tol)*max(1,max|x|) and decorative/alias/lagged/exogenous/time equations hold exactly. FP mode: the same code on z3 binary64 values, every path, one QF_FP query per returning path: no reported value is NaN or inf for any finite doubles.',
    note='Trusted: SymReal/SymFP duck classes and the driver (max() shadowed by an ite in FP mode only). Residual bound derived from the exit test using the gain read off the real parser partition. n>3 and non-affine simultaneous residuals outside.')
+C['C15'] = dict(level=MC, engine='E2', design='§2 C15',
+   technique='symbolic execution (symx, z3 reals) of the unmodified CalculateInitialSteadyState followed by one real SolveStep; per-path SMT post-condition',
+   text='Stable, drifting, oscillating, damped, explosive, decorated and (thorough) coupled two-stock blocks are initialised by the real steady-state search with all k=0 values and the exogenous input symbolic in [-2000,2000] (both signs), search horizons 2-3(4), tolerances 1e-4 and 1e-2; every feasible path is explored; on acceptance one further real SolveStep(1) is executed and z3 shows every non-excluded variable moves by no more than the documented tolerance rule amplified by the block one-step gain; otherwise the path ended in NoEquilibriumError/ValueError; the initialised solver (equations, parser lists, exogenous series, horizon) is unchanged.',
+   note='TimeSeriesHolder.GenerateCSVtext stubbed to "" in E2 runs (log rendering). Default search horizon 200 is outside the bound.')
 PENDING = {}
 ALL = ['C%02d' % i for i in range(1, 21)]
 checks = []
